@@ -546,6 +546,62 @@ def stream_transform(ctx, corr_failures):
             corr_failures.append((c, code, model, ok))
 
 
+def fit_other_eval(c):
+    """fit on one collection, transform ANOTHER one lying inside the fitted grid (fit on train, transform on test): the
+    output must be the approximate landscape of the transformed diagram on the grid learned by fit"""
+    T = common.pm("landscapes.transformer").PersistenceLandscaper
+    A = common.pm("landscapes.approximate").PersLandscapeApprox
+    X, Y = [arr(d) for d in c["train"]], [arr(d) for d in c["test"]]
+
+    def go():
+        t = T(hom_deg=c["hom_deg"], flatten=c["flatten"], num_steps=c["n"])
+        t.fit(X)
+        out = t.transform(Y)
+        ref = A(dgms=[np.array(y, copy=True) for y in Y], hom_deg=c["hom_deg"], start=t.start, stop=t.stop, num_steps=c["n"]).values
+        return out, ref, (float(t.start), float(t.stop))
+    st, v, _ = _quiet(go)
+    if st == "err":
+        return False, "raised " + str(v)
+    out, ref, grid = v
+    want = np.asarray(ref, dtype=float)
+    want = want.flatten() if c["flatten"] else want
+    got = np.asarray(out, dtype=float)
+    if got.shape != want.shape or not np.array_equal(got, want):
+        return False, "transform(test) after fit(train) on grid %r: %r, approximate landscape of the test diagram on that grid: %r" % (
+            grid, got.tolist(), want.tolist())
+    return True, ""
+
+
+def stream_fit_other(ctx):
+    r = ctx.rng
+    for _ in range(ctx.n(300, 3000)):
+        c0 = gen_exact(ctx) if r.random() < 0.5 else gen_generic(ctx)
+        hd = c0["hom_deg"]
+        if hd >= len(c0["dgms"]):
+            continue
+        bars = finite_bars(c0["dgms"][hd])
+        if len(bars) < 2:
+            continue
+        lo, hi = min(b for b, _ in bars), max(d for _, d in bars)
+        test = []
+        for _ in range(r.randint(1, 4)):                 # bars inside the fitted range, not the fitted bars themselves
+            b, d = r.choice(bars)
+            b2 = r.choice([b, (b + d) / 2, (lo + b) / 2, lo])
+            d2 = r.choice([d, (b2 + d) / 2 if (b2 + d) / 2 > b2 else d, (d + hi) / 2, hi])
+            if b2 < d2:
+                test.append([b2, d2])
+        if not test:
+            continue
+        tdg = [list(map(list, d)) for d in c0["dgms"]]
+        tdg[hd] = test
+        c = {"op": "fit_other", "train": c0["dgms"], "test": tdg, "hom_deg": hd, "n": c0["n"], "flatten": r.random() < 0.5}
+        ok, why = fit_other_eval(c)
+        ctx.test("transformer_fit_train_transform_test_is_approx", ok)
+        if not ok:
+            ctx.violation("PersistenceLandscaper: " + why[:600], c, found_input=True, law="fit_other")
+            return
+
+
 def synth_cps(ctx):
     """synthetic critical pairs: increasing abscissae, mostly zero end values"""
     r = ctx.rng
@@ -846,6 +902,8 @@ def run(ctx):
         stream_vectorize_true(ctx)
     if not any(f for _, f in ctx.violations):
         stream_large(ctx)
+    if not any(f for _, f in ctx.violations):
+        stream_fit_other(ctx)
     # line coverage of the anchored functions on a small slice (tracing is slow)
     with cov:
         for c in [gen_generic(ctx) for _ in range(10)] + [gen_exact(ctx) for _ in range(10)] + [gen_malformed(ctx) for _ in range(14)]:
@@ -879,6 +937,10 @@ def _short(v, n=400):
 
 
 def replay(ctx, rep):
+    if rep["case"].get("op") == "fit_other":
+        ok, why = fit_other_eval(rep["case"])
+        print("fit(train); transform(test):", "holds" if ok else why[:1500])
+        return ok
     if rep["case"].get("op") == "approx_large":
         ok, why = large_case_check(rep["case"])
         print("large on-grid case:", "holds" if ok else why)
